@@ -45,6 +45,8 @@ def _walk_own(fn):
     while stack:
         n = stack.pop()
         yield n
+        if isinstance(n, (ast.FunctionDef, ast.ClassDef, ast.Lambda)):
+            continue            # a nested def directly in the body: its statements belong to it, not to `fn`
         for c in ast.iter_child_nodes(n):
             if isinstance(c, (ast.FunctionDef, ast.ClassDef, ast.Lambda)):
                 continue
